@@ -38,6 +38,8 @@ def check(index, ctx):
                     ctx.require(same, "G", f"{_layout.short_fn(e)}: outputs/cotangents pairing", "one source",
                                 f"outputs in order {e['outputs']['order']}, cotangents in order {e['grad_outputs']['order']}", e["loc"], nontrivial=False)
             agg = _pipe.evs(res, "aggregator_call")
+            for _b in _pipe.evs(res, "aggregator_bypass"):
+                ctx.violated("A", f"{_layout.short_fn(_b)}: aggregator applied through forward()", "the aggregator's forward() is called directly instead of aggregator(matrix): hooks registered on the aggregator (nn.Module.__call__) are skipped, so what is deposited is not aggregator(J)", _b["loc"])
             ctx.require(len(agg) == 1, "A", f"{run.label}: aggregator applied once" if len(agg) == 1 else "Aggregate: aggregator applied exactly once per call",
                         "one call on the united matrix", f"aggregator applied {len(agg)} times on path [{res.describe_path()[-80:]}]",
                         agg[0]["loc"] if agg else "")
